@@ -52,11 +52,12 @@ Definition eHistory (o : option (list result)) : list Z :=
            end.
 
 (* an op-level controller history: specs, then steps = nodes, metrics (with rv), ops;
-   an op = code (1 sync, 2 key, 3 clear cache, 4 delete shard), scheduler, hidden NodeShards *)
+   an op = code (1 sync, 2 key, 3 clear cache, 4 delete shard, 5 sync with failing writes), scheduler, hidden (5: failing) NodeShards *)
 Definition dOp : dec op6 :=
   let* c := dZ in let* s := dZ in let* h := dList dZ in
   if c =? 1 then ret (OSync h) else if c =? 2 then ret (OKey s h)
-  else if c =? 3 then ret OClear else if c =? 4 then ret (ODelete s) else fail.
+  else if c =? 3 then ret OClear else if c =? 4 then ret (ODelete s)
+  else if c =? 5 then ret (OSyncFaulty h) else fail.
 Definition dOpsHistory : dec (list sspec * list (list node * metrics * list op6)) :=
   let* ss := dList dSspec in
   let* steps := dList (let* ns := dList dNode in let* m := dMetricsRv in let* ops := dList dOp in ret (ns, m, ops)) in
